@@ -133,6 +133,7 @@ def run_census(prog, rep, which, rule):
     for b in roots:
         rep.fn(b)
     from .. import fieldinv
+    census.PROG = prog
     finv = fieldinv.compute(prog)     # invariants of private integer fields, used by the interval rules
     taint = census.Taint(prog, scope, param_sources(prog, which, roots))
     table = {e['key']: e for e in load_table('panic_sites.json')['sites']}
@@ -213,6 +214,54 @@ def run_census(prog, rep, which, rule):
 ALLOC_METHODS = {'with_capacity', 'resize', 'reserve', 'reserve_exact', 'from_elem', 'repeat'}
 ALLOC_CAP = 2 ** 26   # 64 MiB: anything above must be justified by a named constant, a bare u32/usize type range never is
 
+
+
+def read_buffers_never_empty(prog, rep, scope, RULE):
+    # ---------------- R08.5 the buffer a fill loop reads into is never empty
+    # (such loops take a zero count for the end of the source; with an empty buffer every read returns 0 without consuming anything, the "buffer not
+    # filled => end of block" test compares 0 with 0, and the loop around it never ends: a buffer sized from a length found in the archive is enough)
+    nbuf = 0
+    for body in sorted(scope, key=lambda b: b.nkey):
+        if body.pkg not in ('mla', 'mlar', 'mla-bindings-c'):
+            continue
+        loops = body.loop_blocks()
+        cnt = collections.Counter()
+        for b in body.calls():
+            t = b.term
+            if t.ctrait != 'std::io::Read' or t.cmethod != 'read' or b.idx not in loops or len(t.args) < 2 or t.args[1].place is None:
+                continue
+            o = origins(body, [t.args[1].place[0]])
+            if o.params - {1} or any(body.lty(p).startswith('&mut [u8]') for p in o.params):
+                continue      # the caller's buffer (an `impl Read::read`): see R10.5 / R13.7
+            owners = [l for l in o.locals if body.lty(l).startswith(('std::vec::Vec<u8', '[u8;')) and l > body.arg_count]
+            if not owners:
+                continue      # a buffer held in a field: allocated by a constructor, not sized per block
+            for l in owners:
+                key = RULE + '|%s|read-buffer:%s#%d|never-empty' % (body.nkey, body.lname(l), cnt[(body.nkey, l)])
+                cnt[(body.nkey, l)] += 1
+                nbuf += 1
+                lo = None
+                if body.lty(l).startswith('[u8;'):
+                    mm = re.match(r'\[u8; (\d+)\]', body.lty(l))
+                    lo = int(mm.group(1)) if mm else None
+                else:
+                    for (dbb, dsi, dk, dobj) in body.defs.get(l, []):
+                        if dk == 'call' and 'vec::from_elem' in cnorm(dobj) and len(dobj.args) >= 2:
+                            iv = census.refined_interval(prog, body, dbb, dobj.args[1])
+                            v = iv[0] if iv is not None else 0
+                            lo = v if lo is None else min(lo, v)
+                        elif dk == 'call' and dobj.cmethod in ('with_capacity', 'new') :
+                            lo = 0 if lo is None else min(lo, 0)
+                    # resized before the loop?
+                    for (rbb, rt, ai) in mutarg_defs(body).get(l, []):
+                        if rt.cmethod == 'resize' and len(rt.args) >= 2 and body.dominates(rbb, b.idx):
+                            iv = census.refined_interval(prog, body, rbb, rt.args[1])
+                            lo = iv[0] if iv is not None else 0
+                ok = lo is not None and lo >= 1
+                rep.ob(RULE, ok, key, 'the buffer of the fill loop has at least %s bytes' % lo if ok else
+                       'the buffer a read loop fills may be empty (size lower bound %s): read() then returns 0 without reaching the end of the source, and a loop that tells '
+                       '"end of block" from "buffer not filled" never terminates' % lo, body.loc(b.idx))
+    rep.floor(RULE, nbuf, 1, 'locally allocated buffers of read loops')
 
 def run(prog, rep, tier):
     scope, taint, seen, table = run_census(prog, rep, 'c08', 'PANIC')
@@ -404,6 +453,8 @@ def run(prog, rep, tier):
                    'a loop calls Read::read and never tests for a zero count: when the source ends before the loop condition is met (a length announced by the archive '
                    'is larger than what the stream holds) the loop spins forever', body.loc(b.idx))
     rep.floor('R08.4', nloop, 2, 'raw reads inside loops in the reader / repair scope')
+
+    read_buffers_never_empty(prog, rep, scope, 'R08.5')
 
     # ---------------- R08.3 name length limit dominates the name allocation
     fb = [b for b in mla.bodies if norm(b.defpath) == 'ArchiveFileBlock::from']
